@@ -339,7 +339,7 @@ def all_calls(rng, tier):
         for d in (None, 0, 1, p, p + 1, p + g, p + g + 3):
             cfgs.append(('guarded', p, g, d))
     if tier == 'quick':
-        must = [('guarded', 2, 0, 1), ('guarded', 3, 0, 0), ('fixed', 3, 0, 1), ('guarded', 2, 2, 1), ('guarded', 3, 1, 4)]
+        must = [('guarded', 0, 2, 1), ('guarded', 2, 0, 1), ('guarded', 3, 0, 0), ('fixed', 3, 0, 1), ('guarded', 2, 2, 1), ('guarded', 3, 1, 4)]
         rng.shuffle(cfgs)
         cfgs = must + [c for c in cfgs if c not in must][:11]
     for cls, p, g, d in cfgs:
